@@ -133,6 +133,7 @@ def run(ctx):
     ext_inst_names(ctx, rp)
     # ---------------- literal rule
     literal_rule(ctx, q, S, rp)
+    constant_injective(ctx, q, S, rp)
     # ---------------- line format and module walk
     line_format(ctx, S)
     module_walk(ctx, q, S)
@@ -421,6 +422,121 @@ def literal_rule(ctx, q, S, rp):
                     ctx.inconclusive.append((tag, "model-only deviation (%s); the compiled crate prints %r for %d" % (bad[0], text, probe)))
 
 
+def constant_injective(ctx, q, S, rp):
+    """`disas_constant` (the rendering of OpConstant / OpSpecConstant literals) from MIR, with the literal, the result type id and
+    the tracker symbolic: two DIFFERENT literals of the same tracked type never get the same rendering, NaN bit patterns excepted
+    (self-composition: every pair of paths, one copy of the literal each). What is rendered is read off the path's result:
+    `<T as ToString>::to_string(e)` — injective in e for integers, and for floats `from_bits(e)` up to NaN — or the generic
+    operand rendering (the word itself)."""
+    import c03
+    fn = S.mf.get("disas_constant", kind="fn")
+
+    def _as_ref(engine, st, v):
+        cell = ("h", engine.fresh_name("tmp"))
+        st.mem[cell] = v
+        return sym.Ref(cell, ())
+
+    def m_disas_instruction(engine, st, fr, callee, args, ops):
+        clo, inst_ref = args[2], args[0]
+        opsref = sym.Ref(inst_ref.root, inst_ref.path + (("field", 3, "Vec<Operand>"),))
+        return sym.Inline(engine.resolve_fn(clo.name), [_as_ref(engine, st, clo), _as_ref(engine, st, opsref)], wrap=lambda rv: sym.Adt("Line", None, [rv]))
+
+    def m_generic(engine, st, fr, callee, args, ops):
+        return sym.Adt("Line", None, [sym.Adt("Generic", None, [])])
+
+    def m_inline(engine, st, fr, callee, args, ops):
+        return sym.Inline(engine.resolve_fn(callee.split("::<")[0]), args)
+    def m_literal_bit(engine, st, fr, callee, args, ops):
+        # `<T as DisassembleLiteralBit>::disas_literal_bit` in the generic helper: the impl of the literal's integer type
+        ty = "u%d" % args[0].size()
+        c = [x for x in S.mf.find("disas_literal_bit") if re.search(r"\(_1: %s," % ty, S.mf.lines[x[2]])]
+        if len(c) != 1:
+            raise mir.Unsupported("disas_literal_bit for %s: %d candidates" % (ty, len(c)))
+        return sym.Inline(S.mf.parse_item(c[0][2]), args)
+    I = z3.BitVecSort(32)
+    for variant, width in (("LiteralBit32", 32), ("LiteralBit64", 64)):
+        val = z3.BitVec("lit%d" % width, width)
+        val2 = z3.BitVec("lit%d_b" % width, width)
+        eng = S.engine([(r"^disas_instruction::<", m_disas_instruction), (r"^disas_literal_bit_operand::<", m_inline), (r"as DisassembleLiteralBit>::disas_literal_bit$", m_literal_bit),
+                        (r"as Disassemble>::disassemble$", m_generic),
+                        (r"^core::f(32|64)::<impl f(32|64)>::from_bits$", lambda e, s_, f, c_, a, o: sym.Adt("Float", c_.split("::")[1], [a[0]]))] + fmt_models() + [
+                            (r"^[a-z_0-9]+$", m_inline)], loop_bound=4)      # free helper functions of the module: from their own MIR
+        classv = sym.Adt("grammar::Instruction", None, [sym.StrV("Constant"), z3.BitVecVal(43, 32), sym.Sym("c", "&[Capability]"), sym.Sym("e", "&[&str]"), sym.Sym("o", "&[LogicalOperand]")])
+        rt = z3.BitVec("rt", 32)
+        inst = sym.Adt("Instruction", None, [sym.Ref(("h", "class"), ()), sym.Adt("Option", "Some", [rt]), sym.Adt("Option", "Some", [z3.BitVec("rid", 32)]),
+                                             sym.Arr([sym.Adt("dr::constructs::Operand", variant, [val])], "vec")])
+        mem = {("h", "class"): classv, ("h", "inst"): inst, ("h", "tt"): S.tracker_value("tt")}
+        tag = "constant-rendering/%s/injective" % variant
+        try:
+            res = eng.run(fn, [sym.Ref(("h", "inst"), ()), sym.Ref(("h", "tt"), ())], mem=mem)
+        except mir.Unsupported as ex:
+            ctx.ob(tag, None, "disas_constant cannot be encoded: %s" % str(ex)[:300])
+            continue
+        ctx.functions.update(eng.stats.functions)
+        keyed = []
+        undecided = None
+        for r in res:
+            if r.status != "return":
+                continue        # panic edges are C04's
+            v = r.value
+            x = v.fields[0] if isinstance(v, sym.Adt) and v.ty == "Line" else v
+            if isinstance(x, sym.Adt) and x.ty == "Generic":
+                keyed.append((r, "generic", z3.ZeroExt(64 - width, val) if width < 64 else val, None))
+            elif isinstance(x, sym.Adt) and x.ty == "ToString" and z3.is_expr(x.fields[0]) and z3.is_bv(x.fields[0]):
+                e_ = x.fields[0]
+                keyed.append((r, x.variant, z3.ZeroExt(64 - e_.size(), e_) if e_.size() < 64 else e_, None))
+            elif isinstance(x, sym.Adt) and x.ty == "ToString" and isinstance(x.fields[0], sym.Adt) and x.fields[0].ty == "Float" and z3.is_expr(x.fields[0].fields[0]):
+                e_ = x.fields[0].fields[0]
+                if e_.size() == 32:
+                    nan = z3.And((e_ & 0x7f800000) == 0x7f800000, (e_ & 0x7fffff) != 0)
+                else:
+                    nan = z3.And((e_ & 0x7ff0000000000000) == 0x7ff0000000000000, (e_ & 0xfffffffffffff) != 0)
+                keyed.append((r, x.variant, z3.ZeroExt(64 - e_.size(), e_) if e_.size() < 64 else e_, nan))
+            else:
+                undecided = repr(x)[:160]
+        if undecided:
+            ctx.ob(tag, None, "a rendering the check cannot read: %s" % undecided)
+            continue
+        sub = lambda t: z3.substitute(t, (val, val2))
+        bad = None
+        for i, (ra, ka, ea, na) in enumerate(keyed):
+            for rb, kb, eb, nb in keyed[i:]:
+                if ka != kb:
+                    continue            # renderings through different formatters: their texts are not compared here (stated)
+                cs = list(ra.pc) + [sub(c) for c in rb.pc] + [val != val2, ea == sub(eb)]
+                if na is not None:
+                    cs.append(z3.Not(na))
+                st_, m = q.check(cs, "constant-injective")
+                if st_ == "sat":
+                    bad = (m, ka)
+                    break
+                if st_ != "unsat":
+                    undecided = str(m)
+            if bad:
+                break
+        if bad is None:
+            ctx.ob(tag, True if not undecided else None, undecided or "%d rendering paths, all pairs" % len(keyed))
+            continue
+        m, ka = bad
+        a, b = m.eval(val, model_completion=True).as_long(), m.eval(val2, model_completion=True).as_long()
+        present = z3.is_true(m.eval(z3.Select(z3.Array("tt.present", I, z3.BoolSort()), rt), model_completion=True))
+        isf = z3.is_true(m.eval(z3.Select(z3.Array("tt.isfloat", I, z3.BoolSort()), rt), model_completion=True))
+        wd = m.eval(z3.Select(z3.Array("tt.width", I, I), rt), model_completion=True).as_long()
+        sg = 1 if z3.is_true(m.eval(z3.Select(z3.Array("tt.signed", I, z3.BoolSort()), rt), model_completion=True)) else 0
+        if not present or (width == 64) != (wd == 64):
+            ctx.ob(tag, None, "model-only collision (%d vs %d rendered through %s) under a tracker state the builder-made probe cannot realise" % (a, b, ka))
+            continue
+        t1 = rp.ask("disas_constant %d %s %d %d" % (wd, "float" if isf else "int", sg, a))
+        t2 = rp.ask("disas_constant %d %s %d %d" % (wd, "float" if isf else "int", sg, b))
+        if "panic" not in t1 and "panic" not in t2 and t1.get("text") is not None and re.sub(r"^%\d+ = ", "", t1.get("text")) == re.sub(r"^%\d+ = ", "", t2.get("text")):
+            ctx.ob(tag, False, "%d and %d" % (a, b))
+            ctx.violation("disassemble/constant-collision/%s-%d" % ("float" if isf else "int", wd),
+                          "two different OpConstant literals of the same %s type of width %d get the same disassembly: bit patterns %d and %d both print %r (neither is a NaN)" % (
+                              "float" if isf else "integer", wd, a, b, t1.get("text")), {"cmd": "disas_constant %d %s %d %d" % (wd, "float" if isf else "int", sg, a), "real": [t1, t2]})
+        else:
+            ctx.ob(tag, None, "model-only collision (%d vs %d through %s); the compiled crate prints %r and %r" % (a, b, ka, t1.get("text"), t2.get("text")))
+
+
 def line_format(ctx, S):
     mf, registry = S.mf, S.registry
     fn = [mf.parse_item(x[2]) for x in mf.find("disas_instruction") if "closure" not in x[0]]
@@ -449,9 +565,16 @@ def line_format(ctx, S):
     except mir.Unsupported as ex:
         ctx.ob("line-format/encodable", None, str(ex)[:300])
         return
-    if len(res) != 1 or res[0].status != "return" or not (isinstance(res[0].value, sym.Adt) and res[0].value.ty == "Formatted"):
+    if not res or any(r_.status != "return" or not (isinstance(r_.value, sym.Adt) and r_.value.ty == "Formatted") for r_ in res):
         ctx.ob("line-format/shape", None, str(res[:1])[:300])
         return
+    for r_ in res:
+        _line_format_path(ctx, eng, r_, rid, rt, len(res))
+
+
+def _line_format_path(ctx, eng, r_, rid, rt, npaths):
+    """one path of disas_instruction on an instruction with a result id and a result type (both arbitrary words)"""
+    res = [r_]
     fa = res[0].value.fields[0]
     args_ = fa.fields[-1]
     if isinstance(args_, sym.Ref):
@@ -492,21 +615,29 @@ def line_format(ctx, S):
     if good:
         ctx.ob("line-format/rid,opname,rtype,space,operands", True, "argument order %s" % order)
         return
-    # native confirmation on one instruction with distinct ids
+    # native confirmation on one instruction whose ids are the path's witness values
+    sol = z3.Solver()
+    for c in r_.pc:
+        sol.add(c)
+    if sol.check() != z3.sat:
+        ctx.ob("line-format/rid,opname,rtype,space,operands", True, "an infeasible path")
+        return
+    m_ = sol.model()
+    ridv = m_.eval(rid, model_completion=True).as_long() if npaths > 1 else 6
     import c03
     le = c03.le
     words = c03.HEADER + le(4 << 16 | 21) + le(1) + le(32) + le(0) + le(2 << 16 | 19) + le(2) + le(3 << 16 | 33) + le(3) + le(2) + \
-        le(5 << 16 | 54) + le(2) + le(4) + le(0) + le(3) + le(2 << 16 | 248) + le(5) + le(5 << 16 | 128) + le(1) + le(6) + le(7) + le(8) + le(1 << 16 | 253) + le(1 << 16 | 56)
+        le(5 << 16 | 54) + le(2) + le(4) + le(0) + le(3) + le(2 << 16 | 248) + le(5) + le(5 << 16 | 128) + le(1) + le(ridv) + le(7) + le(8) + le(1 << 16 | 253) + le(1 << 16 | 56)
     rp = Replay()
     real = rp.ask("load_disassemble %s" % words)
     rp.close()
     line = [l for l in real.get("text", "").split("\n") if "IAdd" in l]
-    ok_native = bool(line) and re.match(r"^%6 = OpIAdd  %1  %7 %8$", line[0]) is not None
+    ok_native = bool(line) and re.match(r"^%%%d = OpIAdd  %%1  %%7 %%8$" % ridv, line[0]) is not None
     if ok_native:
         ctx.ob("line-format/rid,opname,rtype,space,operands", None, "model sees argument order %s but the compiled crate prints %r" % (order, line[0]))
     else:
         ctx.ob("line-format/rid,opname,rtype,space,operands", False, "argument order %s; native line %r" % (order, line[:1]))
-        ctx.violation("disassemble/line-format", "an instruction line is not `%%id = Op<name>  %%type  operands`: the compiled crate prints %r" % (line[:1],),
+        ctx.violation("disassemble/line-format", "an instruction line is not `%%id = Op<name>  %%type  operands`: for an OpIAdd with result id %d the compiled crate prints %r" % (ridv, line[:1]),
                       {"cmd": "load_disassemble %s" % words, "real": real})
 
 
